@@ -258,10 +258,12 @@ Upd(g, o, ln, o2) ==
                !.lastSig = lastSig1,
                !.term = term1,
                !.csigs = csigs1,
+               \* the veto of a before_signal hook concerns the signal that send_signal would deliver next: the
+               \* very next effect (the hook_success/failure event in between excepted)
                !.veto = IF ln.k = "hook" /\ ln.x = "before_signal"
-                        THEN (IF Effective(g, ln.w, "before_signal", ln.r) THEN @ \ {ln.p} ELSE @ \cup {ln.p})
-                        ELSE IF ln.k = "hook" /\ ln.x = "after_signal" THEN @ \ {ln.p}
-                        ELSE IF ln.k = "signal" THEN @ \ {ln.p} ELSE @,
+                        THEN (IF Effective(g, ln.w, "before_signal", ln.r) THEN {} ELSE {ln.p})
+                        ELSE IF isEv /\ (ln.x = "hook_success:before_signal" \/ ln.x = "hook_failure:before_signal") THEN @
+                        ELSE {},
                !.hookOpen = IF ln.k = "hook" THEN ln.x ELSE IF isEv THEN "" ELSE @,
                !.blocked = @ \/ ln.k = "block",
                !.termAt = IF @ = -1 /\ sdStim THEN ln.t ELSE @,
@@ -282,8 +284,8 @@ Upd(g, o, ln, o2) ==
                !.detached = IF ln.k = "hook" /\ ln.x = "after_spawn" /\ ~Effective(g, ln.w, "after_spawn", ln.r)
                             THEN @ \cup {ln.p} ELSE @,
                !.vetoRaise = IF ln.k = "hook" /\ ln.x = "before_signal"
-                             THEN (IF ln.r = "raise" /\ ~HookCfg(g, ln.w, "before_signal").ig THEN @ \cup {ln.p} ELSE @ \ {ln.p})
-                             ELSE @,
+                             THEN (IF ln.r = "raise" /\ ~HookCfg(g, ln.w, "before_signal").ig THEN {ln.p} ELSE {})
+                             ELSE IF isEv /\ ln.x = "hook_failure:before_signal" THEN @ ELSE {},
                !.dsigBusy = @ \/ (ln.k = "dsig" /\ ln.a \in {15, 2, 3} /\ o2.slot # ""),
                !.sigTargets = IF isReq THEN {} ELSE IF ln.k \in SigKinds THEN @ \cup {ln.p} ELSE @ ]
   IN g1
